@@ -98,7 +98,7 @@ func runC11(c *Ctx) {
 			fod := c.Facts(od)
 			var asNil []*pstate
 			for _, rs := range fod.AllReturns() {
-				_, dec := hasLit(rs.State, mustRe(`^call:dyn:fv:\w+\.decoder$`))
+				_, dec := hasLit(rs.State, mustRe(`^call:dyn:fv:[\w#]+\.decoder$`))
 				if !dec && rs.State.lits["Stream#0.Kind()#2 == nil"] {
 					asNil = append(asNil, rs.State)
 				}
